@@ -252,7 +252,94 @@ fn alias_pairs() -> Vec<(String, String)> {
     ]
 }
 
+/* ------------------------------------------------------------ routes and used objects */
+
+/// two spellings of one miniscript (sugar): must parse to identical objects
+fn sugar_pairs() -> Vec<(&'static str, &'static str)> {
+    vec![("pk(K00001)", "c:pk_k(K00001)"), ("pkh(K00001)", "c:pk_h(K00001)"),
+         ("tv:pk(K00001)", "and_v(v:pk(K00001),1)"), ("l:pk(K00001)", "or_i(0,pk(K00001))"), ("u:pk(K00001)", "or_i(pk(K00001),0)"),
+         ("and_n(pk(K00001),pk(K00002))", "andor(pk(K00001),pk(K00002),0)"),
+         ("tvc:pk_k(K00001)", "and_v(vc:pk_k(K00001),1)"), ("lu:pk(K00001)", "or_i(0,or_i(pk(K00001),0))"),
+         ("thresh(1,pk(K00001),s:pk(K00002))", "thresh(1,c:pk_k(K00001),sc:pk_k(K00002))")]
+}
+fn sugar_obs<Ctx: ScriptContext>(s1: &str, s2: &str) -> Option<(String, String, Obs)> {
+    let a = guarded(|| SMs::<Ctx>::from_str_insane(s1))?.ok()?;
+    let b = guarded(|| SMs::<Ctx>::from_str_insane(s2))?.ok()?;
+    Some((unbuild::<Ctx>(&a).wire(), unbuild::<Ctx>(&b).wire(), if s1.len() % 2 == 0 { observe(&a, &b) } else { observe(&b, &a) }))
+}
+
+/// `Tr<Pk>` objects in three states (fresh, USED = spend info computed, clone of a used one) over
+/// trees that share derived data (output key, leaf scripts) without sharing structure: mirrored
+/// at depth 1..3, multi_a / sortedmulti_a over sorted keys, duplicate leaves, different internal key
+fn tr_state_items<Pk: crate::c20::KeyId + miniscript::ToPublicKey>(base: u32) -> Vec<(String, Tr<Pk>)> {
+    use Node::*;
+    let bx = |n: Node| Box::new(n);
+    let leaf_nodes: Vec<Node> = vec![
+        Check(bx(PkK(base + 1))), Check(bx(PkK(base + 2))), Check(bx(PkK(base + 3))), Check(bx(PkK(base + 4))),
+        MultiA(1, vec![base + 1, base + 2]), SortedMultiA(1, vec![base + 1, base + 2]), SortedMultiA(1, vec![base + 2, base + 1]),
+        Hash(HK::Sha256, 0),
+    ];
+    let leaves: Vec<Option<Arc<Miniscript<Pk, Tap>>>> = leaf_nodes.iter().map(|n| ast::to_ms::<Pk, Tap>(n).ok().map(Arc::new)).collect();
+    let l = |i: usize| Sh::L(i);
+    let n = |a: Sh, b: Sh| Sh::N(Box::new(a), Box::new(b));
+    let shapes: Vec<Sh> = vec![
+        l(0), l(1), l(4), l(5), l(6), l(7),
+        n(l(0), l(1)), n(l(1), l(0)), n(l(0), l(0)),
+        n(n(l(0), l(1)), l(2)), n(n(l(1), l(0)), l(2)), n(l(2), n(l(0), l(1))), n(l(2), n(l(1), l(0))),
+        n(n(n(l(0), l(1)), l(2)), l(3)), n(n(n(l(1), l(0)), l(2)), l(3)), n(l(3), n(l(2), n(l(0), l(1)))), n(n(l(2), n(l(0), l(1))), l(3)),
+        n(n(l(0), l(1)), n(l(2), l(3))), n(n(l(2), l(3)), n(l(0), l(1))), n(n(l(1), l(0)), n(l(3), l(2))),
+        n(l(4), l(7)), n(l(5), l(7)), n(l(7), l(4)),
+    ];
+    fn tree<Pk: crate::c20::KeyId>(s: &Sh, leaves: &[Option<Arc<Miniscript<Pk, Tap>>>]) -> Option<TapTree<Pk>> {
+        match s {
+            Sh::L(i) => Some(TapTree::leaf(leaves[*i].clone()?)),
+            Sh::N(a, b) => TapTree::combine(tree(a, leaves)?, tree(b, leaves)?).ok(),
+        }
+    }
+    let mut out = vec![];
+    for ik in [base + 5, base + 6] {
+        let mut objs: Vec<(String, Tr<Pk>)> = vec![];
+        if let Ok(t) = Tr::new(Pk::of(ik), None) { objs.push((format!("tr({})", ik), t)); }
+        for s in &shapes {
+            if let Some(t) = tree(s, &leaves) { if let Ok(t) = Tr::new(Pk::of(ik), Some(t)) { objs.push((format!("tr({};{})", ik, s.tok()), t)); } }
+        }
+        for (tok, t) in objs {
+            let used = t.clone();
+            let _ = guarded(|| used.spend_info());
+            let used_clone = used.clone();
+            if ik == base + 5 { out.push((tok.clone(), t)); }
+            out.push((tok.clone(), used));
+            if ik == base + 5 { out.push((tok, used_clone)); }
+        }
+    }
+    out
+}
+
 pub fn run(e: &mut Emit, thorough: bool, rng: &mut Rng) {
+    // (R1) sugar spellings through from_str in every context
+    for ctx in CtxK::ALL {
+        for (s1, s2) in sugar_pairs() {
+            let r = match ctx {
+                CtxK::Bare => sugar_obs::<miniscript::BareCtx>(s1, s2), CtxK::Legacy => sugar_obs::<miniscript::Legacy>(s1, s2),
+                CtxK::Segwitv0 => sugar_obs::<miniscript::Segwitv0>(s1, s2), CtxK::Tap => sugar_obs::<Tap>(s1, s2),
+            };
+            match r {
+                Some((wa, wb, o)) => {
+                    e.out.count("pair sugar-spelling");
+                    e.out.line(&format!("J eqstruct {} {} {} {} {} {} {} {}", ctx.name(), wa, wb, o.eq, o.cmp, o.hash, o.disp, o.pc), "ok");
+                }
+                None => e.out.count(&format!("sugar-spelling unparsed {} {}", ctx.name(), s1)),
+            }
+        }
+    }
+    // (R4) Tr in three states, full keys and x-only keys
+    let tf = tr_state_items::<miniscript::bitcoin::PublicKey>(0);
+    e.out.note("tr-states-full items", tf.len().to_string());
+    emit_tok_family(e, "tr-states-full", &tf, rng, 6, 12, if thorough { 3000 } else { 500 }, &|a, b| hash_same(a, b));
+    let tx = tr_state_items::<miniscript::bitcoin::secp256k1::XOnlyPublicKey>(200);
+    e.out.note("tr-states-xonly items", tx.len().to_string());
+    emit_tok_family(e, "tr-states-xonly", &tx, rng, 6, 12, if thorough { 3000 } else { 500 }, &|a, b| hash_same(a, b));
+
     // (4) tap trees and Tr
     let shapes_v = tree_items(thorough);
     let trees: Vec<(String, TapTree<String>)> = shapes_v.iter().filter_map(|s| build_tree(s).map(|t| (s.tok(), t))).collect();
@@ -296,6 +383,26 @@ pub fn run(e: &mut Emit, thorough: bool, rng: &mut Rng) {
     let df = str_items::<Descriptor<miniscript::DefiniteDescriptorKey>>(&definite_desc_strings(), e.out, "descriptor-definite");
     e.out.note("descriptor-definite items", df.len().to_string());
     emit_str_family(e, "descriptor-definite", &df, rng, if thorough { 2000 } else { 300 }, &|a, b| hash_same(a, b));
+    // (R1/R4) derived descriptors: `at_derivation_index` results against the same definite key
+    // parsed from its string, and against keys that derive the same public key through another
+    // structure; then everything in the USED state (script_pubkey computed)
+    {
+        type DD = Descriptor<miniscript::DefiniteDescriptorKey>;
+        let mut items: Vec<(String, DD)> = vec![];
+        for (_, d) in dd.iter() {
+            if !d.has_wildcard() || d.is_multipath() { continue; }
+            for i in [0u32, 1, 5] {
+                if let Some(Ok(x)) = guarded(|| d.at_derivation_index(i)) { items.push((x.to_string(), x)); }
+            }
+        }
+        let derived_tokens: Vec<String> = items.iter().map(|(t, _)| t.split('#').next().unwrap_or("").to_string()).collect();
+        for t in derived_tokens { if let Some(Ok(x)) = guarded(|| DD::from_str(&t)) { items.push((x.to_string(), x)); } }
+        for (t, x) in df.iter() { items.push((t.clone(), x.clone())); }
+        let used: Vec<(String, DD)> = items.iter().map(|(t, x)| { let u = x.clone(); let _ = guarded(|| u.script_pubkey()); (t.clone(), u) }).collect();
+        items.extend(used);
+        e.out.note("descriptor-derived items", items.len().to_string());
+        emit_tok_family(e, "descriptor-derived", &items, rng, 4, 10, if thorough { 3000 } else { 500 }, &|a, b| hash_same(a, b));
+    }
     for (s1, s2) in alias_pairs() {
         match (guarded(|| Descriptor::<DescriptorPublicKey>::from_str(&s1)), guarded(|| Descriptor::<DescriptorPublicKey>::from_str(&s2))) {
             (Some(Ok(a)), Some(Ok(b))) => {
